@@ -103,6 +103,13 @@ def run_impl(histories, profile="debug", snap=False, timeout=600, exe=None, env=
     return res
 
 
+def base_norm(l):
+    """a failed debug assertion is an internal panic on the implementation side and an `assert <site>` marker in the model"""
+    if l.startswith("assert ") or l.startswith("panic internal:assertion"):
+        return "panic internal:assertion"
+    return l
+
+
 def compare(impl, model, channels, canon=None):
     """-> list of (hid, op index, op, channel, impl lines, model lines) for the first difference of every history"""
     diffs = []
@@ -123,8 +130,8 @@ def compare(impl, model, channels, canon=None):
                 break
             (op, il), (_, ml) = iops[i], mops[i]
             for ch in channels + ["exit"]:
-                a = [l for l in il if channel(l) == ch]
-                b = [l for l in ml if channel(l) == ch]
+                a = [base_norm(l) for l in il if channel(l) == ch]
+                b = [base_norm(l) for l in ml if channel(l) == ch]
                 if canon:
                     a = canon(ch, a, op)
                     b = canon(ch, b, op)
